@@ -806,6 +806,14 @@ impl History {
         if !read_always {
             cx.count("histories whose result buffers are read only now and then");
         }
+        // in half of the histories the model stores answer on threads of their own, so that nothing the model does
+        // (tokenising the same text with its own language object, say) touches the thread-local state of the thread the
+        // registry runs on
+        let model_apart = cx.tier != Tier::Miri && cx.rng.chance(1, 2);
+        if model_apart {
+            cx.count("histories whose model stores answer on threads of their own");
+        }
+        let mut last_q_of_id: BTreeMap<usize, String> = BTreeMap::new();
         for opk in 0..nops {
             let id = *cx.rng.pick(&idset);
             let exists = model.contains_key(&id);
@@ -930,6 +938,15 @@ impl History {
                             }
                             _ => q,
                         };
+                        // ... or the text this id was sent last - also before it was destroyed and created again
+                        let q = match last_q_of_id.get(&id) {
+                            Some(lq) if cx.rng.chance(1, 3) => {
+                                cx.count("searches repeating the text this id was sent last");
+                                lq.clone()
+                            }
+                            _ => q,
+                        };
+                        last_q_of_id.insert(id, q.clone());
                         last_q = Some((id, q.clone()));
                         hist.push(format!("search({},{:?})", id, q));
                         cx.ctx(format!("C20 lang={} history={:?}", lang, hist));
@@ -938,8 +955,19 @@ impl History {
                         } else {
                             run_search(id, &q);
                         }
+                        if model_apart {
+                            let (mst, _) = model.remove(&id).unwrap();
+                            let q2 = q.clone();
+                            let (mst, hits) = on_new_thread(move || {
+                                let hits = mst.search(&q2);
+                                (mst, hits)
+                            });
+                            model.insert(id, (mst, hits));
+                        } else {
+                            let m = model.get_mut(&id).unwrap();
+                            m.1 = m.0.search(&q);
+                        }
                         let m = model.get_mut(&id).unwrap();
-                        m.1 = m.0.search(&q);
                         cx.count("searches");
                         if cx.rng.chance(1, 4) {
                             // the limit changes and the very same text is searched again on the same id
@@ -1079,7 +1107,7 @@ impl Prop for History {
         match self.0 {
             Which::NoCrash => vec![("searches", 20000, 200000), ("searches with hits", 5000, 50000), ("joined-record hits (two spans from a one-word query)", 50, 500), ("non-ASCII queries", 2000, 20000), ("limit 0", 200, 2000), ("limit 65536", 200, 2000), ("histories with boundary-value record ids", 2000, 20000), ("long-text searches", 500, 5000), ("long-text searches with a query over 255 characters", 100, 1000), ("corpus-store searches", 300, 3000), ("long-text cases with a giant word or a 1000+ word title", 20, 200), ("soak searches on one store", 600000, 2500000), ("most searches on one store max ", 66000, 66000), ("soak stores with more than 2^16 records", 2, 8), ("adds re-using the id of an earlier record", 5000, 50000), ("registry: searches", 10000, 300000), ("registry: searches with hits", 1500, 45000), ("registry: limit changes", 5000, 150000), ("registry: readers that call back into the registry", 1500, 45000)],
             Which::NoStale => vec![("search after add following an earlier search", 2000, 20000), ("search after clear following an earlier search", 500, 5000), ("search after limit following an earlier search", 500, 5000), ("empty-query search after a mutation following an earlier search", 1000, 10000), ("exhaustive histories", 20000, 200000), ("histories on a crowded store", 2000, 20000), ("histories that clear and refill a crowded store", 2000, 20000), ("histories growing a store past 64/128/256/512 records with searches in between", 200, 5000), ("histories growing a store past 1024 records with searches in between", 60, 1500), ("soak searches on one store", 1000000, 4000000), ("search repeating the previous query after a mutation", 2000, 20000), ("operations on another store of the same thread inside a history", 3000, 30000), ("registry-driven searches compared with a fresh store", 5000, 50000), ("adds re-using the id of an earlier record", 3000, 30000), ("histories whose searches run on other threads than the adds (the store is moved there and back)", 1500, 15000), ("histories whose reference stores are built and searched on threads of their own", 3000, 30000), ("histories with a very long word next to a threshold match", 2000, 20000), ("histories with more than twenty fully tied records and a shrinking limit", 2000, 20000)],
-            Which::Registry => vec![("observations", 20000, 200000), ("observations with >= 2 live ids holding results", 2000, 20000), ("destroy", 300, 3000), ("searches", 3000, 30000), ("histories over 4-20 store ids", 1000, 10000), ("bursts of 45-120 records", 300, 3000), ("stores created with another language than their neighbours", 3000, 30000), ("searches repeating the text just sent to another id", 2000, 20000), ("histories whose result buffers are read only now and then", 5000, 50000), ("reads that add a record from inside the reader", 5000, 50000), ("searches repeated on the same id after a limit change", 5000, 50000), ("stores emptied in place through using_store", 2000, 20000)],
+            Which::Registry => vec![("observations", 20000, 200000), ("observations with >= 2 live ids holding results", 2000, 20000), ("destroy", 300, 3000), ("searches", 3000, 30000), ("histories over 4-20 store ids", 1000, 10000), ("bursts of 45-120 records", 300, 3000), ("stores created with another language than their neighbours", 3000, 30000), ("searches repeating the text just sent to another id", 2000, 20000), ("histories whose result buffers are read only now and then", 5000, 50000), ("reads that add a record from inside the reader", 5000, 50000), ("searches repeated on the same id after a limit change", 5000, 50000), ("stores emptied in place through using_store", 2000, 20000), ("histories whose model stores answer on threads of their own", 5000, 50000), ("searches repeating the text this id was sent last", 3000, 30000)],
         }
     }
     fn run(&self, cx: &mut Cx, stream: &str, idx: u64) {
